@@ -725,7 +725,7 @@ pub fn suite_clitrace(dir: &str, seed: u64, thorough: bool, st: &mut Stats) {
     let (code, _) = base.bita(&["compress", "-i", "src.bin", "--min-chunk-size", "64", "--avg-chunk-size", "512", "--max-chunk-size", "4096", "a.cba"], None, &[]);
     assert_eq!(code, 0);
     let archive = base.read("a.cba").unwrap();
-    let modes: Vec<&str> = vec!["plain", "seedfile", "stdin", "inplace", "http", "verify", "inplace-seed-verify", "compress", "compress-stdin", "compress-force"];
+    let modes: Vec<&str> = vec!["plain", "seedfile", "stdin", "inplace", "http", "verify", "inplace-seed-verify", "compress", "compress-stdin", "compress-force", "compress-unlink-fails"];
     let reps = if thorough { 4 } else { 1 };
     let archive = &archive;
     let src = &src;
@@ -742,6 +742,26 @@ pub fn suite_clitrace(dir: &str, seed: u64, thorough: bool, st: &mut Stats) {
         let mut stdin: Option<Vec<u8>> = None;
         let mut srv = None;
         let mut expect: Vec<String> = vec![];
+        if mode == "compress-unlink-fails" {
+            // the removal of the temporary chunk file fails: the command must not report success with the temp file left
+            s.write("in.bin", src);
+            let a: Vec<&str> = vec!["-f", "-o", "/dev/null", "-e", "trace=unlink,unlinkat", "-e", "inject=unlink,unlinkat:error=EPERM"];
+            let bin = bita_bin();
+            let mut a2 = a.clone(); a2.extend([bin.as_str(), "compress", "-i", "in.bin", "new.cba"]);
+            let before = s.listing();
+            let (code, log) = s.run("strace", &a2, None, &[]);
+            let after = s.listing();
+            let newfiles: Vec<String> = after.iter().filter(|f| !before.contains(f)).cloned().collect();
+            st.evaluations += 1;
+            st.oracle_checks += 1;
+            st.count("clitrace/compress-unlink-fails");
+            let line = format!("trace {}", mode);
+            if code == 0 && newfiles != vec!["new.cba".to_string()] {
+                st.violation("C16", &format!("compress exits 0 although removing its temporary file failed; new files {:?}", newfiles), &line);
+            }
+            if code != 0 && code != 1 { st.violation("C15", &format!("compress with a failing unlink ended with status {}: {}", code, log.lines().last().unwrap_or("")), &line); }
+            return;
+        }
         match mode {
             "plain" => { args.extend(["clone", "a.cba", "out.bin"].map(String::from)); expect.push("openw:out.bin:O_CREAT|O_EXCL".into()); }
             "seedfile" => { args.extend(["clone", "--seed", "seed.bin", "a.cba", "out.bin"].map(String::from)); expect.push("openw:out.bin:O_CREAT|O_EXCL".into()); }
@@ -937,13 +957,17 @@ pub fn suite_clifault(dir: &str, seed: u64, thorough: bool, st: &mut Stats) {
         s.write("src.bin", &src);
         let (code, _) = s.bita(&["compress", "-i", "src.bin", "--min-chunk-size", "1024", "--avg-chunk-size", "2048", "--max-chunk-size", "8192", "a.cba"], None, &[]);
         if code != 0 { return; }
-        let kind = *rng.pick(&["new", "inplace", "blockdev"]);
-        let mode = *rng.pick(&["eio", "eio", "kill"]);
-        let mut prior = if kind == "new" { vec![] } else { edit(&mut rng, &src) };
+        // every third multi-write case: an old output in which many chunks have to move (the source rotated), a
+        // write of the re-ordering phase fails once
+        let rotated = !single && i % 3 == 1;
+        let kind = if rotated { "inplace" } else { *rng.pick(&["new", "inplace", "blockdev"]) };
+        let mode = if rotated { "eio" } else { *rng.pick(&["eio", "eio", "kill"]) };
+        let when = if rotated { rng.range(1, 4) } else { 1 };
+        let mut prior = if kind == "new" { vec![] } else if rotated { let k = src.len() / 3 + rng.below(200) as usize; let mut v = src[k..].to_vec(); v.extend_from_slice(&src[..k]); v } else { edit(&mut rng, &src) };
         if kind == "blockdev" && prior.len() < src.len() { prior.resize(src.len(), 0x33); }
         if kind != "new" { s.write("out.bin", &prior); }
         let outp = s.p("out.bin").to_string_lossy().to_string();
-        let inject = if mode == "eio" { "inject=write:error=EIO:when=1".to_string() } else { "inject=write:signal=KILL:when=1".to_string() };
+        let inject = if mode == "eio" { format!("inject=write:error=EIO:when={}", when) } else { "inject=write:signal=KILL:when=1".to_string() };
         let mut args: Vec<String> = vec!["-f".into(), "-o".into(), "/dev/null".into(), "-P".into(), outp.clone(), "-e".into(), "trace=write".into(), "-e".into(), inject, bita_bin(), "clone".into()];
         if kind != "new" { args.push("--seed-output".into()); }
         args.push("a.cba".into()); args.push("out.bin".into());
@@ -954,7 +978,7 @@ pub fn suite_clifault(dir: &str, seed: u64, thorough: bool, st: &mut Stats) {
         let wrote_ok = if kind == "blockdev" { after1.len() >= src.len() && after1[..src.len()] == src[..] } else { after1 == src };
         st.evaluations += 1;
         st.oracle_checks += 2;
-        st.count(&format!("clifault/{}/{}/{}", kind, mode, if single { "single-write" } else { "multi" }));
+        st.count(&format!("clifault/{}/{}/{}", kind, mode, if single { "single-write" } else if rotated { "rotated-reorder-phase" } else { "multi" }));
         let line = format!("clifault kind={} mode={} single={} src={}B prior={}B", kind, mode, single, src.len(), prior.len());
         st.nontrivial_key(format!("{}{}", line, i).as_bytes());
         st.sample(line.clone());
